@@ -82,7 +82,7 @@ fn run_scenario(sc: &Scenario, idx: usize, transport: &str, tr: &Tr) -> Result<(
     let path = dir.join("s");
     let addr = match transport {
         "abstract" => format!("unix:@verif-listen-{}-{}", std::process::id(), idx),
-        "tcp" => format!("tcp:127.0.0.1:{}", 23000 + (std::process::id() % 20000) as usize + idx % 50),
+        "tcp" => format!("tcp:127.0.0.1:{}", free_port(false)),
         "mode" => format!("unix:{};mode=0600", path.display()),
         _ => format!("unix:{}", path.display()),
     };
@@ -291,7 +291,7 @@ pub fn run(args: &[String]) {
         let mut rng = Rng::new(seed() * 131 + rep as u64);
         let scs = scenarios(&mut rng);
         for (i, sc) in scs.iter().enumerate() {
-            if (i + rep) % parts != part {
+            if (i + rep) % parts != part || nfail > 12 {
                 continue;
             }
             let transport = ["unix", "unix", "mode", "abstract", "tcp"][(i + rep * 3 + seed() as usize) % 5];
